@@ -15,6 +15,7 @@ def dispatchWrapF (line : String) : String :=
   | "ranks" :: args => handleRanks args
   | "pure" :: args => handlePure args
   | "cderef" :: args => handleCDeref args
+  | "value" :: args => handleValue args
   | _ => "bad-op"
 
 partial def loopWrapF (h : IO.FS.Stream) (out : IO.FS.Stream) : IO Unit := do
